@@ -21,7 +21,7 @@ CHECKS = {
          "round trip in both directions (n<=4) incl. L1 and centring, on the caller's own array; scale invariance of the chromatic reduction; n-sphere conversion through the real code with an angle abstraction: radius, angle "
          "ranges and round trip for every point incl. zero patterns (dimension 2-3, 4 thorough)", "4 C16"),
  "C20": ("real irr2flux / flux2irr with the real pint registry on symbolic magnitudes: equals I*lambda/(h c N_A) with the exact SI constants to rel 1e-12, exact inverse, linear, "
-         "axis= variant == broadcast form, same numbers for plain arrays and quantities in several units, requested prefix/unit returned", "4 C20"),
+         "axis= variant == broadcast form, same numbers for plain arrays and quantities in several units, requested prefix/unit returned; a conversion preceded in the same process by conversions with another prefix follows the law for its own prefix", "4 C20"),
  "C03": ("real in_hull_from_A / estimator.in_hull on fully symbolic systems with a two-sided Delaunay contract stub: reported-in => reproducible in bounds (witness = convex weights "
          "of the box corners) and capture of in-bound intensities => reported-in (multilinear corner weights), i.e. corner enumeration, K/baseline applied once, offset subtraction on "
          "both sides, relative=False; NNLS fallback (fewer sources than receptors) through the cvxpy shim", "4 C03"),
@@ -66,7 +66,7 @@ CHECKS = {
  "C02": ("system_capture / system_relative_capture / capture / relative_capture of a symbolic estimator (symbolic filters, sources, domain, K, baseline, intensities) equal the harness's "
          "trapezoid capture of the mixed spectrum and K(Q+baseline) as polynomial identities; the adaptation mutators give K = 1/(Q+baseline) (or K_old + that) and relative capture 1", "4 C02"),
  "C01": ("every entry of calculate_capture / integral / ReceptorEstimator.capture equals the harness's own trapezoid (or rectangle) sum as a polynomial identity over all "
-         "filter, signal and domain values, for every enumerated rank/shape; linearity and scalar-step==explicit-domain as separate identities", "4 C01"),
+         "filter, signal and domain values, for every enumerated rank/shape; linearity and scalar-step==explicit-domain as separate identities; concrete integer-typed non-uniform domain arrays (int64/int32/uint16/list)", "4 C01"),
 }
 NA = {}
 for i in range(1, 21):
